@@ -57,6 +57,7 @@ def run(ctx):
     ctx.do(rule_integer_tests_exclude_bool)
     ctx.do(rule_ignorecase_is_ascii)
     ctx.do(rule_floats_finite)
+    ctx.do(rule_constraint_presence_tests)
     ctx.do(rule_helpers_examine_every_pair)
     # timestamps are emitted with the digits their slot prescribes only if every value went through the truncation pipeline
     from . import C15
@@ -509,6 +510,41 @@ def rule_helpers_examine_every_pair(ctx, rule_id="C02.constraints"):
                       expected="no break / return inside the loops", found=[short(x, 30) for x in exits])
     if n < 2:
         raise AnalysisError("fewer than 2 loops in the co-constraint helpers (%d)" % n)
+
+
+def rule_constraint_presence_tests(ctx, rule_id="C02.constraints"):
+    """In the constraint methods, "the property is present" is asked of string / number slots by MEMBERSHIP: their legal values
+    include the falsy ones ('' , 0, 0.0), which a truthiness test (`if self.get('body')`) takes for absent -- the rule that
+    `body` may only be used when is_multipart is false is then not applied to `body: ''`, and the invalid combination is
+    emitted.  (Timestamps, lists and embedded objects have no falsy legal value; `is True` / `is False` tests are exact.)"""
+    from ..typemodel import get_model, version_of_module
+    run = ctx.run
+    prog = ctx.prog
+    tm = get_model(prog)
+    sbase = prog.cls("stix2.base::_STIXBase")
+    n = 0
+    for fi in sorted(prog.functions.values(), key=lambda f: f.id):
+        if fi.name != "_check_object_constraints" or fi.cls is None or sbase not in (fi.cls.mro or []) or fi.module.relpath.startswith("stix2/test"):
+            continue
+        rec = tm.classes.get((version_of_module(fi.module.name), fi.cls.name))
+        if not rec:
+            continue
+        kinds = {a_: b_.get("kind") for a_, b_ in rec["slots"]}
+        k_ = 0
+        for iff in [x for x in body_walk(fi.node) if isinstance(x, ast.If) and any(isinstance(s_, ast.Raise) for s_ in x.body)]:
+            for c_ in conjuncts(iff.test):
+                e = c_.operand if isinstance(c_, ast.UnaryOp) and isinstance(c_.op, ast.Not) else c_
+                if isinstance(e, ast.Call) and isinstance(e.func, ast.Attribute) and e.func.attr == "get" and norm(e.func.value) == "self" \
+                        and e.args and isinstance(e.args[0], ast.Constant) and kinds.get(e.args[0].value) in (
+                            "StringProperty", "IntegerProperty", "FloatProperty"):
+                    n += 1
+                    k_ += 1
+                    run.violation(rule_id, key(fi.module.relpath, fi.qualname, "presence-by-membership#%d" % k_),
+                                  "the constraint asks whether `%s` (a %s) is present by the TRUTHINESS of its value: the legal falsy "
+                                  "value ('' / 0) counts as absent and the constraint is not applied to it" % (e.args[0].value, kinds[e.args[0].value]),
+                                  file=fi.module.relpath, line=iff.lineno, function=fi.qualname,
+                                  expected="'%s' in self" % e.args[0].value, found=short(iff.test, 80))
+    run.ok(rule_id, key("stix2", "<constraint methods>", "presence-tests-examined"))
 
 
 def rule_floats_finite(ctx, rule_id="C02.clean-contract"):
